@@ -18,6 +18,11 @@ EXTRA_SNIPPETS = [
     ("cmp_raises_le", "    class Bad:\n        def __deepcopy__(self, memo):\n            raise ValueError('no copy')\n    try:\n        assert Bad() <= snapshot(5)\n    except Exception:\n        pass"),
     ("cmp_raises_in", "    class Bad:\n        def __eq__(self, o):\n            return False\n        def __hash__(self):\n            return 1\n    try:\n        assert Bad() in snapshot([5])\n    except Exception:\n        pass"),
     ("cmp_raises_eq", "    class Bad:\n        def __eq__(self, o):\n            return False\n    try:\n        assert Bad() == snapshot(5)\n    except Exception:\n        pass"),
+    ("cmp_raises_in_eq", "    class W:\n        def __eq__(self, o):\n            if not isinstance(o, W):\n                raise TypeError('no')\n            return True\n        def __repr__(self):\n            return 'W()'\n    try:\n        assert W() in snapshot([1])\n    except TypeError:\n        pass"),
+    ("cmp_raises_in_second", "    s = snapshot([1, 2])\n    assert 1 in s\n    try:\n        assert 'a' + 1 in s\n    except TypeError:\n        pass"),
+    ("cmp_typeerror_ge", "    s = snapshot(5)\n    assert 7 >= s\n    try:\n        assert 'a' >= s\n    except TypeError:\n        pass"),
+    ("getitem_is_loop", "    for i in range(3):\n        assert snapshot({'a': Is(i), 'b': 1+1})['a'] == i"),
+    ("in_with_is", "    k = 7\n    assert 7 in snapshot([Is(k), 1+1])"),
     ("cmp_typeerror", "    try:\n        assert 'a' <= snapshot(5)\n    except TypeError:\n        pass"),
     # exceptions raised inside tests
     ("raise_before", "    raise RuntimeError('boom')\n    assert 1 == snapshot(2)"),
